@@ -233,21 +233,24 @@ def r14_2(ctx: Ctx) -> None:
 
 
 def _ordered_replay(cfg: CFG, func: ast.AST, call: ast.Call) -> bool:
-    """ `fresh.add_component(x, xs[i + 1:])` inside `for i, x in enumerate(xs)` with fresh = Module() / cls(...) """
+    """ `fresh.add_component(<element>, xs[<position> + 1:])` inside a loop over all of xs from the start (any of the
+        spellings of asa.loopview) with fresh = Module() / cls(...) """
+    from ..loopview import view
     loops = [lp for lp in enclosing_loops(call, stop=func) if isinstance(lp, ast.For)]
     if not loops or len(call.args) != 2:
         return False
     loop = loops[0]
-    if not (isinstance(loop.iter, ast.Call) and call_name(loop.iter) == "enumerate" and len(loop.iter.args) == 1
-            and isinstance(loop.target, ast.Tuple) and len(loop.target.elts) == 2):
+    v = view(func, loop.iter, loop.target, loop.body)
+    if v is None or v.lower_text != "0" or not v.to_end:
         return False
-    index, elem = (txt(e) for e in loop.target.elts)
-    source = txt(loop.iter.args[0])
     receiver = inline_reaching(cfg, call, call.func.value)  # type: ignore[attr-defined]
     fresh = isinstance(receiver, ast.Call) and call_name(receiver) in ("Module", "cls")
-    base = source[:-len(".components")] if source.endswith(".components") else source
-    sliced = [f"{src}[{index} + 1:]" for src in (base, f"{base}.components")] + [f"{src}[1 + {index}:]" for src in (base, f"{base}.components")]
-    return fresh and txt(call.args[0]) == elem and txt(call.args[1]) in sliced
+    rest = call.args[1]
+    base = v.seq[:-len(".components")] if v.seq.endswith(".components") else v.seq
+    tail = isinstance(rest, ast.Subscript) and isinstance(rest.slice, ast.Slice) and rest.slice.upper is None \
+        and rest.slice.step is None and rest.slice.lower is not None and txt(rest.value) in (base, f"{base}.components", v.seq) \
+        and v.position_plus(rest.slice.lower, 1)
+    return fresh and v.is_element(call.args[0], func) and tail
 
 
 def _ancestors_of(node: ast.AST):
@@ -379,8 +382,8 @@ def r14_4(ctx: Ctx) -> None:
     ctx.ob("R14.4", MI, 1, "<module>", "double transporter cases classified", ok,
            "the look-ahead cases name classified domains", form=str(cases))
     fj = ctx.fn(MI, "Module.from_json")
-    ok = not [w for w in _state_writes(fj)] and any(last_attr(c) == "add_component" for c in calls(fj)) and \
-        any(isinstance(n, ast.For) and "enumerate(components)" in txt(n.iter) for n in walk_local(fj))
+    ok = not [w for w in _state_writes(fj)] and any(last_attr(c) == "add_component" and _ordered_replay(CFG(fj), fj, c)
+                                                    for c in calls(fj))
     ctx.ob("R14.4", MI, fj, "Module.from_json", "reload through add_component", ok,
            "a saved module is rebuilt component by component through the same add_component (no direct slot writes)", form="")
     tj = ctx.fn(MI, "Module.to_json")
